@@ -78,7 +78,7 @@ func (p *DynamicProxy) ServeTCP(in net.Conn) error {
 		}
 	}
 
-	err = tunnel(in, in, out, t.RxCounter, t.TxCounter)
+	err = tunnel(in, out, t.RxCounter, t.TxCounter)
 	if err != nil && err != io.EOF {
 		log.Print("[WARN]: tcp:  ", err)
 		return err
